@@ -233,7 +233,8 @@ func roundtrip[T Num](c *core.Ctx, io *IOBackend[T], b *Backend[T], rc rtCase) {
 	defer os.Remove(file)
 	ds := "/data"
 	if rc.Nested {
-		ds = "/GROUP/sub/data"
+		// nested groups, also with names that repeat along the path or contain one another
+		ds = []string{"/GROUP/sub/data", "/runs/runs/q", "/scenario/sub_scenario/storage", "/a/ab/a", "/x/x/x/x", "/results/baseline_results/flow", "/M/M"}[(len(want)+len(rc.Dims)+rc.Root[0])%7]
 	}
 	var got Arr[T]
 	var err error
